@@ -93,22 +93,52 @@ Definition used_tree (t0 : utree) (o : sexp) : utree :=
 Definition used_audit (o : sexp) : option string :=
   match get "used" o with Some _ => audit_ok o | None => None end.
 
+(** homonymous tips (at most 12 tips: the sort of the code is then stable): the tree and the
+    returned names are renamed apart the same way (Model/Matrix.v [relabel]); everything else
+    is judged on the renamed tree, whose tip names are distinct *)
+Definition has_dup (t : utree) : bool := negb (nodup_sorted (ssort (tip_names t))).
+Definition norm_tree (t : utree) : utree := if has_dup t then relabel_tips t else t.
+Definition norm_names (t : utree) (names : list string) : list string :=
+  if has_dup t then relabel_names names else names.
+Definition dup_too_big (t : utree) : bool := has_dup t && Nat.ltb 12 (length (tip_names t)).
+
+(** matrices printed by the command line (%.12f): cells within 6e-13 (+ a relative 2^-50) *)
+Definition qcli (a b : Q) : bool :=
+  Qle_bool (qabs (a - b)) ((6 # 10000000000000) + (qabs a + qabs b) * (1 # 1125899906842624))%Q.
+Definition qmat_cli (a b : list (list Q)) : bool := list_eqb (list_eqb qcli) a b.
+Definition is_cli (c : sexp) : bool := match get_bool "cli" c with Some b => b | None => false end.
+
+Definition matrix_oracle_cli (m : metric) (t : utree) (names : list string) (g : list (list Q)) : option string :=
+  if negb (list_eqb String.eqb names (ssort (leaves t))) then Some "rows are not the tips in name order"
+  else match spec_matrix m t with
+       | None => Some "oracle: a pair of tips has no path (malformed input)"
+       | Some s =>
+         if negb (qmat_cli g s) then Some ("a printed cell is not the sum over the path; expected " ++ show_matrix s)
+         else None
+       end.
+
 Definition judge_matrix (c o : sexp) : verdict :=
   match get_tree "tree" c, (s <- get_string "metric" c ;; dec_metric s) with
   | Some t0, Some m =>
-    let t := used_tree t0 o in
+    let tu := used_tree t0 o in
+    let t := norm_tree tu in
+    let cli := is_cli c in
     match get_string "panic" o with
     | Some p => if in_dom t then VOracle ("crash: " ++ p) else VCorr ("crash: " ++ p)
     | None =>
       match get_strings "names" o, (x <- get "matrix" o ;; dec_matrix x) with
-      | Some names, Some g =>
-        if negb (model_dom t) then VBad "case outside the model's domain (duplicate tip names)" else
-        match (if in_dom t then first_some [used_audit o; matrix_oracle m t names g] else None) with
+      | Some names0, Some g =>
+        let names := norm_names tu names0 in
+        if dup_too_big tu then VBad "homonymous tips beyond 12 tips are not modelled (unstable sort)" else
+        if negb (model_dom t) then VBad "case outside the model's domain" else
+        match (if in_dom t then first_some [used_audit o;
+                                            if cli then matrix_oracle_cli m t names g else matrix_oracle m t names g]
+               else None) with
         | Some msg => VOracle msg
         | None =>
           let '(mn, mm) := to_matrix m t in
           if negb (list_eqb String.eqb mn names) then VCorr ("model names: " ++ concat_with "," mn)
-          else if negb (qmat_eqb mm g) then VCorr ("model matrix: " ++ show_matrix mm)
+          else if negb (if cli then qmat_cli mm g else qmat_eqb mm g) then VCorr ("model matrix: " ++ show_matrix mm)
           else VOk (Nat.leb 3 (length names))
                    ("matrix:" ++ (match m with MBrlen => "brlen" | MBoots => "boot" | MNone => "none" end)
                     ++ (if in_dom t then "" else ":outside"))
@@ -127,7 +157,7 @@ Fixpoint msum (l : list (list (list Q))) : list (list Q) :=
   | a :: r => madd a (msum r)
   end.
 
-Definition avg_oracle (m : metric) (ts : list utree) (names : list string) (g : list (list Q)) : option string :=
+Definition avg_oracle (cli : bool) (m : metric) (ts : list utree) (names : list string) (g : list (list Q)) : option string :=
   match ts with
   | [] => None
   | t :: _ =>
@@ -136,7 +166,7 @@ Definition avg_oracle (m : metric) (ts : list utree) (names : list string) (g : 
          | None => Some "oracle: a pair of tips has no path (malformed input)"
          | Some ms =>
            let mean := mdiv (length ts) (msum ms) in
-           if qmat_close g mean then None
+           if (if cli then qmat_cli g mean else qmat_close g mean) then None
            else Some ("a cell is not the mean of the path sums; expected " ++ show_matrix mean)
          end
   end.
@@ -144,7 +174,10 @@ Definition avg_oracle (m : metric) (ts : list utree) (names : list string) (g : 
 Definition judge_avg (c o : sexp) : verdict :=
   match (x <- get "trees" c ;; dec_list dec_utree x), (s <- get_string "metric" c ;; dec_metric s) with
   | Some ts0, Some m =>
-    let ts := match (x <- get "used" o ;; dec_list dec_utree x) with Some us => us | None => ts0 end in
+    let tsu := match (x <- get "used" o ;; dec_list dec_utree x) with Some us => us | None => ts0 end in
+    let anydup := existsb has_dup tsu in
+    let ts := if anydup then map relabel_tips tsu else tsu in
+    let cli := is_cli c in
     let dom := forallb in_dom ts in
     let same := match ts with
                 | [] => true
@@ -169,12 +202,13 @@ Definition judge_avg (c o : sexp) : verdict :=
              else VCorr ("implementation refuses: " ++ gerr))
           else
           match get_strings "names" o, (x <- get "matrix" o ;; dec_matrix x) with
-          | Some names, Some g =>
-            match (if dom && same then first_some [used_audit o; avg_oracle m ts names g] else None) with
+          | Some names0, Some g =>
+            let names := if anydup then relabel_names names0 else names0 in
+            match (if dom && same then first_some [used_audit o; avg_oracle cli m ts names g] else None) with
             | Some msg => VOracle msg
             | None =>
               if negb (list_eqb String.eqb mn names) then VCorr ("model names: " ++ concat_with "," mn)
-              else if negb (qmat_close mm g) then VCorr ("model matrix: " ++ show_matrix mm)
+              else if negb (if cli then qmat_cli mm g else qmat_close mm g) then VCorr ("model matrix: " ++ show_matrix mm)
               else VOk (Nat.leb 2 (length ts))
                        ("avg:" ++ (match m with MBrlen => "brlen" | MBoots => "boot" | MNone => "none" end)
                         ++ (if dom && same then "" else ":outside"))
@@ -204,7 +238,10 @@ Definition judge_cut (c o : sexp) : verdict :=
           (if in_dom t then VOracle ("cut refused: " ++ gerr) else VCorr ("implementation refuses: " ++ gerr))
         else
         let want := cut_groups maxlen t in
-        if in_dom t && (match used_audit o with Some _ => true | None => false end)
+        if negb (list_eqb String.eqb (ssort (concat bags)) (ssort (tip_names t)))
+        then VOracle ("the groups do not partition the tips of the tree (Tree.Tips(), a root with a single neighbour included): "
+                      ++ show_groups bags)
+        else if in_dom t && (match used_audit o with Some _ => true | None => false end)
         then VOracle "structural audit of the tree the cut was called on"
         else if in_dom t && negb (groups_eqb bags want)
         then VOracle ("the bags are not the groups of tips joined by branches shorter than the threshold; expected "
